@@ -187,6 +187,7 @@ func reorgEventsFull(path string) ([]uint64, []common.Hash) {
 }
 
 type c06Result struct {
+	sig        string
 	verdict    string
 	inconcl    string
 	nontrivial bool
@@ -398,20 +399,35 @@ func c06Run(c c06Case) (res c06Result) {
 		// replaced delivered block the node cannot know about the reorg yet (the final convergence check still applies)
 		if isolated && firstReplaced != 0 && newTip >= lastReplaced {
 			// (2) the node must be rewound at or before the first replaced delivered block
-			if !waitIdle(10 * time.Second) {
-				if res.inconcl == "" {
-					res.inconcl = "node did not go idle after an isolated fork within 10s"
+			// wait until the node has had the chance to notice (fresh polls and detector sweeps after the fork) and is idle
+			// again; a missing rewind is only reported if it stays missing for 3 s of idleness
+			var evs []uint64
+			missingSince := time.Time{}
+			dl := time.Now().Add(15 * time.Second)
+			for {
+				mu.Lock()
+				sinceLog, sweeps = 0, 0
+				mu.Unlock()
+				if !waitIdle(10 * time.Second) {
+					if res.inconcl == "" {
+						res.inconcl = "node did not go idle after an isolated fork within 10s"
+					}
+					return
 				}
-				return
-			}
-			evs := reorgEvents(rdPath)
-			if len(evs) <= eventsBefore {
-				// idle and no rewind recorded: wait a little longer before declaring it (the detector sweeps every ms)
-				time.Sleep(50 * time.Millisecond)
 				evs = reorgEvents(rdPath)
+				if len(evs) > eventsBefore {
+					break
+				}
+				if missingSince.IsZero() {
+					missingSince = time.Now()
+				}
+				if time.Since(missingSince) > 3*time.Second || time.Now().After(dl) {
+					break
+				}
 			}
 			if len(evs) <= eventsBefore {
-				res.verdict = fmt.Sprintf("fork #%d replaced delivered block %d (and the node is idle) but no rewind was recorded", i+1, firstReplaced)
+				res.verdict = fmt.Sprintf("fork #%d replaced delivered block %d; the node stayed idle for 3 s of polls and detector sweeps but no rewind was recorded", i+1, firstReplaced)
+				res.sig = c06SigRace
 				return
 			}
 			// a detector sweep that straddles the fork sees old headers for the first blocks and new ones for the rest, and
